@@ -31,7 +31,8 @@ func init() {
 			"joined by a simulated bounded pipe; the scheduler interleaves them per Read/Write event; reads fragment, stutter ((0,nil)) and deliver EOF with data. " +
 			"engine 'pipe-faults': the same plus injected write errors / disk-full (producer crashes, torn tail) and read errors, with the relaxed oracle. " +
 			"engine 'paths': one generated geometry x byte order x SRID encoded by every encode path and decoded by the byte decoder, the stream decoder over a faulty reader " +
-			"and the real database/sql over a stub driver (10 destinations x framings x 3 scanners, NULLs, wrong column types, row-buffer reuse). " +
+			"and the real database/sql over a stub driver (10 destinations x framings x 3 scanners, NULLs, wrong column types, row-buffer reuse); half of the runs also decode a foreign encoding of the value " +
+			"(the harness's own writer, every member in its own drawn byte order) through all of these paths, and scan two rows into one reused scanner and destination keeping what the first row gave. " +
 			"Distinct = distinct event-log digest; non-trivial = a fault fired, a context switch happened or >= 3 operations completed.",
 		StateDef: "distinct (geometry kind-shape signature, byte order, srid class, encoder/decoder kinds, framing, destination, fault vector) tuples reached",
 		Engines: []props.Engine{
